@@ -330,3 +330,19 @@ func SortedKeys[V any](m map[string]V) []string {
 	sort.Strings(out)
 	return out
 }
+
+// Restart replaces the application instance by a fresh one over the same database, as a node restart does:
+// package-level oracle state is reset (hook H2, inside NewApp), the store is loaded at the last committed version.
+// Must be called between blocks (after Commit).
+func (c *Chain) Restart() (err error) {
+	if c.InBlock {
+		return fmt.Errorf("restart inside a block")
+	}
+	defer func() {
+		if r := recover(); r != nil {
+			err = fmt.Errorf("restart panic: %v\n%s", r, debug.Stack())
+		}
+	}()
+	c.App = NewApp(c.DB, c.ChainID)
+	return nil
+}
